@@ -894,6 +894,7 @@ func LoadCanonical(repo, verif string, overlay map[string][]byte) (*Ctx, error) 
 
 var gNewFuncs = map[*ssa.Function]bool{}
 var gCallSitesOf = map[*ssa.Function][]ssa.CallInstruction{}
+var gUsersOf = map[*ssa.Function][]*ssa.Function{} // new function -> functions that call it or take it as a method value
 
 // New struct types (not in the reference, not a renamed reference type): state a refactoring moved out
 // of local or captured variables into an object of its own. Their fields are transparent to value
@@ -941,6 +942,7 @@ func ssaFuncKey(fn *ssa.Function) (pkg, key string, ok bool) {
 func computeNewFuncs(c *Ctx, ref map[string]*refPkg) {
 	gNewFuncs = map[*ssa.Function]bool{}
 	gCallSitesOf = map[*ssa.Function][]ssa.CallInstruction{}
+	gUsersOf = map[*ssa.Function][]*ssa.Function{}
 	if ref == nil {
 		return
 	}
@@ -1005,6 +1007,18 @@ func computeNewFuncs(c *Ctx, ref map[string]*refPkg) {
 				}
 				if g := ci.Common().StaticCallee(); g != nil && gNewFuncs[g] {
 					gCallSitesOf[g] = append(gCallSitesOf[g], ci)
+					gUsersOf[g] = append(gUsersOf[g], fn)
+				}
+			}
+		}
+	}
+	for fn := range c.AllFuncs {
+		for _, b := range fn.Blocks {
+			for _, in := range b.Instrs {
+				if mc, ok := in.(*ssa.MakeClosure); ok {
+					if g := boundMethodTarget(mc); g != nil && gNewFuncs[g] {
+						gUsersOf[g] = append(gUsersOf[g], fn)
+					}
 				}
 			}
 		}
